@@ -25,6 +25,9 @@ for sid in ids:
     print(sid, r.get("tests", "")[:12], {k: ("detected" if v.get("detected") else "MISSED") + ("/no-input" if v.get("no_failing_input") else "")
                                          for k, v in r["checks"].items()}, flush=True)
     if not own.get("detected"):
-        missed.append(sid)
+        if meta.get("neutralised_by_fix"):
+            print(sid, "not detected, and no longer a violation: neutralised by", meta["neutralised_by_fix"]["commit"])
+        else:
+            missed.append(sid)
 print("missed:", missed)
 sys.exit(1 if missed else 0)
